@@ -1278,6 +1278,10 @@ func r28CoReset(c *RuleCtx) {
 				if emptied[pr.b] {
 					x, y = y, x
 				}
+				// the half that is left alone is made afresh before anything reads it
+				if ok, _ := remadeBeforeAnyRead(p, pr.typ, y); ok {
+					continue
+				}
 				bad = append(bad, fmt.Sprintf("%s empties %s but not %s", funcShortName(fn), st.Field(x).Name(), st.Field(y).Name()))
 			}
 		}
